@@ -44,16 +44,17 @@ NB_PEG = [(t[0], t[1], t[2], 'Q') for t in NB_PEG] + [(t[0], t[1], t[2] + ' — 
 NB_PEG_STACK = [t for t in NB_PEG if t[1] in ('nb_peg_push_pop', 'nb_peg_pred', 'nb_peg_rep_choice', 'nb_peg_slice', 'nb_peg_bal', 'nb_peg_optpush', 'nb_peg_reppush', 'nb_peg_repbal', 'nb_peg_predmut')]
 NB_SLICES = ('nb_slices', 'nb_slices', 'all stacks of depth<=4 over {a,bb} x all PEEK[a..b], PEEK[a..] with a,b in -6..=6 x all inputs<=5 chars', 'q')
 NB_PEG_D1 = ('nb_peg', 'nb_peg_d1', 'PUSH(a) ~ ((POP? ~ b) | PEEK); all strings<=6 chars over {a,b}', 'q')
-NB_GEN = ('derive:nb_gen', 'nb_gen_vs_pest', 'generated parser vs pest: 28 rules (all kinds/operators, built-ins, stack slices) x all strings<=5 chars over 3 alphabets', 'Q')
-NB_GEN_T = ('derive:nb_gen', 'nb_gen_vs_pest', 'generated parser vs pest: 28 rules x all strings<=7 chars over 3 alphabets', 't', {'VERIF_NB_L': '7'})
-NB_GEN_SUB_REL = ('derive:nb_gen', 'nb_gen_subinput@release', 'RELEASE profile (debug assertions off, unchecked slicing): 11 rules x all strings<=4 chars x all sub-ranges', 'q', {'VERIF_PROFILE': 'release'})
-NB_GEN_REL = ('derive:nb_gen', 'nb_gen_vs_pest@release', 'RELEASE profile: 28 rules x all strings<=5 chars over 3 alphabets', 'q', {'VERIF_PROFILE': 'release'})
+NB_GEN = ('derive:nb_gen', 'nb_gen_vs_pest', 'generated parser vs pest: 31 rules (all kinds/operators, built-ins, stack slices) x all strings<=5 chars over 3 alphabets', 'Q')
+NB_GEN_T = ('derive:nb_gen', 'nb_gen_vs_pest', 'generated parser vs pest: 31 rules x all strings<=7 chars over 3 alphabets', 't', {'VERIF_NB_L': '7'})
+NB_GEN_SUB_REL = ('derive:nb_gen', 'nb_gen_subinput@release', 'RELEASE profile (debug assertions off, unchecked slicing): 15 rules x all strings<=4 chars x all sub-ranges', 'q', {'VERIF_PROFILE': 'release'})
+NB_GEN_REL = ('derive:nb_gen', 'nb_gen_vs_pest@release', 'RELEASE profile: 31 rules x all strings<=5 chars over 3 alphabets', 'q', {'VERIF_PROFILE': 'release'})
 NB_INPUT_REL = ('nb_input', 'nb_skip_contract@release', 'RELEASE profile: skip / Position::next on all strings<=4 chars x all spans', 'q', {'VERIF_PROFILE': 'release'})
 NB_GEN_SKIPTOK = ('derive:nb_gen', 'nb_gen_skip_tokens', 'generated parser vs pest, grammar with NON-silent WHITESPACE/COMMENT: 5 rules x all strings<=6 tokens over 2 alphabets', 'q')
 NB_GEN_COMMENT_INNER = ('derive:nb_gen', 'nb_gen_comment_inner', 'non-silent COMMENT mentioning a non-silent rule: all strings<=5 tokens', 'q')
 NB_LEAF = ('nb_peg', 'nb_leaf_contents', 'leaf contents on all strings<=3 chars over 10 characters (1-4 bytes, CR, LF)', 'q')
-NB_GEN_SUB = ('derive:nb_gen', 'nb_gen_subinput', 'generated parser: 11 rules x all strings<=4 chars over 2 alphabets x all sub-ranges (Span/Position vs fresh copy)', 'Q')
-NB_GEN_SUB_T = ('derive:nb_gen', 'nb_gen_subinput', 'generated parser: 11 rules x all strings<=6 chars x all sub-ranges', 't', {'VERIF_NB_L': '6'})
+NB_GEN_SUB = ('derive:nb_gen', 'nb_gen_subinput', 'generated parser: 15 rules x all strings<=4 chars over 2 alphabets x all sub-ranges (Span/Position vs fresh copy)', 'Q')
+NB_MATCHERS = ('nb_input', 'nb_matchers', 'every default matcher on all strings<=3 chars x all spans x 3 cursors; match_string / match_insensitive on all 128x128 ASCII pairs', 'q')
+NB_GEN_SUB_T = ('derive:nb_gen', 'nb_gen_subinput', 'generated parser: 15 rules x all strings<=6 chars x all sub-ranges', 't', {'VERIF_NB_L': '6'})
 K_PEG = [
     ('k_peg', 'peg_seq3_skip', 'bounded', 'q', 'a ~ b ~ a with skip; symbolic input <=5 chars over {a,b,space}; unwind 7'),
     ('k_peg', 'peg_seq2_atomic', 'bounded', 'q', '@{a ~ b}; symbolic input <=4 chars; unwind 6'),
@@ -74,7 +75,7 @@ PROPS = {
         'verus': ['comb', 'choice', 'nodes', 'seqchk', 'repchk', 'wrappers', 'leaf', 'input'],
         'expanded': True,
         'kani': K_PEG,
-        'native': NB_PEG + [NB_PEG_D1, NB_GEN, NB_GEN_T, NB_GEN_SKIPTOK],
+        'native': NB_PEG + [NB_PEG_D1, NB_GEN, NB_GEN_T, NB_GEN_SKIPTOK, NB_MATCHERS],
         'assumptions': ['sem (PEG denotation with full backtracking, failing empty-stack operations) is pest\'s behaviour where pest is defined',
                         'generator translation of the grammar into the combinator type tree is not verified (DESIGN.md §6)'],
     },
@@ -98,7 +99,7 @@ PROPS = {
         'verus': ['comb', 'choice', 'nodes', 'seqchk', 'repchk', 'wrappers', 'leaf', 'rules'],
         'expanded': True,
         'kani': K_PEG,
-        'native': NB_PEG + [NB_GEN, NB_GEN_T, NB_GEN_SKIPTOK],
+        'native': NB_PEG + [NB_GEN, NB_GEN_T, NB_GEN_SKIPTOK, NB_GEN_SUB, NB_GEN_SUB_T],
         'assumptions': ['R1 (tracker erasure) is behaviour-preserving for match/offset/stack results'],
     },
     'C04': {
@@ -165,7 +166,7 @@ PROPS = {
             NB_GEN_SUB, NB_GEN_SUB_T,
             ('nb_input', 'nb_skip_until_contract', 'all strings<=4 chars over {a,*,/,é,€,😀} x all spans x 3 cursors x 5 needle sets', 'q'),
             ('nb_input', 'nb_skip_contract', 'all strings<=4 chars x all spans x n<6', 'q'),
-            ('nb_input', 'nb_matchers', 'every default matcher on all strings<=3 chars x all spans x 3 cursors', 'q'),
+            NB_MATCHERS,
             ('nb_input', 'nb_matchers@release', 'RELEASE profile: every default matcher on all strings<=3 chars x all spans x 3 cursors', 'q', {'VERIF_PROFILE': 'release'}),
             ('nb_input', 'nb_shims', 'std shims + UTF-8 lemmas on all strings<=3 chars', 'q'),
         ],
@@ -185,7 +186,7 @@ PROPS = {
             NB_GEN_SUB, NB_GEN_SUB_T,
             NB_GEN, NB_GEN_T,
             ('nb_input', 'nb_skip_contract', 'all strings<=4 chars x all spans x n<6', 'q'),
-            ('nb_input', 'nb_matchers', 'every default matcher on all strings<=3 chars x all spans x 3 cursors', 'q'),
+            NB_MATCHERS,
             ('nb_input', 'nb_matchers@release', 'RELEASE profile: every default matcher on all strings<=3 chars x all spans x 3 cursors', 'q', {'VERIF_PROFILE': 'release'}),
             ('nb_input', 'nb_shims', 'std shims + UTF-8 lemmas on all strings<=3 chars', 'q'),
         ],
@@ -243,6 +244,8 @@ PROPS = {
         'native': [
             ('nb_fmt', 'nb_fmt_span', 'all strings<=4 chars over {LF,CR,TAB,a,中,é} incl. empty x all spans', 'Q'),
             ('nb_fmt', 'nb_fmt_pos', 'all strings<=4 chars over {LF,CR,TAB,a,中,é} incl. empty x all positions', 'Q'),
+            ('nb_fmt', 'nb_fmt_lines', 'all strings<=10 chars over {LF,a} x all spans and positions (five-line and elided renderings anywhere)', 'Q'),
+            ('nb_fmt', 'nb_fmt_lines', 'all strings<=13 chars over {LF,a} x all spans and positions', 't', {'VERIF_NB_L2': '13'}),
             ('nb_fmt', 'nb_fmt_span', 'all strings<=5 chars x all spans', 't', {'VERIF_NB_L': '5'}),
             ('nb_fmt', 'nb_fmt_pos', 'all strings<=5 chars x all positions', 't', {'VERIF_NB_L': '5'}),
         ],
